@@ -37,6 +37,7 @@ E0 = datetime.datetime(2020, 1, 1)
 DAY = 24
 DAY_US = 86400 * 10 ** 6     # cases with unit='us': timestamps and times of day in microseconds
 UNIT = 'h'                   # unit of the case being run (set by impl)
+EPOCHS = {'2020': datetime.datetime(2020, 1, 1), '1700': datetime.datetime(1700, 3, 1), '1970': datetime.datetime(1970, 1, 1), '2250': datetime.datetime(2250, 6, 1)}
 def day_of(case):
     return DAY_US if case.get('unit') == 'us' else DAY
 BRACKETS = ['[]', '[)', '(]', '()']
@@ -86,13 +87,33 @@ def H(x):
     s = d.total_seconds()
     return int(s // 3600) if s % 3600 == 0 else 'frac:%r' % s
 
+BFORM = 'datetime'
 def py_bound(b):
     if b is None: return None
-    if b[0] == 'at': return T(b[1])
+    if b[0] == 'at':
+        t = T(b[1])
+        midnight = (t.hour, t.minute, t.second, t.microsecond) == (0, 0, 0, 0)
+        if BFORM == 'Timestamp': return pd.Timestamp(t)
+        if BFORM == 'np': return np.datetime64(t)
+        if BFORM == 'date' and midnight: return t.date()
+        if BFORM == 'str' and midnight: return t.strftime('%Y-%m-%d')
+        if BFORM == 'int' and midnight and t.year >= 1000: return t.year * 10000 + t.month * 100 + t.day
+        return t
     if UNIT == 'us':
         q, us = divmod(b[1], 10 ** 6)
         return datetime.time(q // 3600, q // 60 % 60, q % 60, us)
     return datetime.time(hour=b[1])
+
+def py_bound_list(xs, all_xs):
+    """one spelling for the whole list: date / str / int spellings only when every bound of the call is at midnight"""
+    global BFORM
+    keep = BFORM
+    if BFORM in ('date', 'str', 'int') and any(x % 24 for x in all_xs):
+        BFORM = 'datetime'
+    try:
+        return [py_bound(['at', x]) for x in xs]
+    finally:
+        BFORM = keep
 
 def fl(v):
     return np.nan if v is None else np.inf if v == PINF else -np.inf if v == NINF else float(v)
@@ -100,10 +121,16 @@ def fl(v):
 def mk_series(s):
     return pd.Series([fl(v) for _, v in s], pd.DatetimeIndex([T(t) for t, _ in s]), dtype=float)
 
+def _nm(x):
+    return tuple(x) if isinstance(x, list) else x
 def build_slice_arg(case):
-    idx = pd.DatetimeIndex([T(t) for t in case['ts']])
+    idx = pd.DatetimeIndex([T(t) for t in case['ts']], name=case.get('iname'))
+    if case['form'] == 'I':
+        return idx
     a = np.array([[fl(c) for c in r] for r in case['rows']], dtype=float).reshape(len(case['rows']), case['k'])
-    return pd.Series(a[:, 0], idx) if case['form'] == 'S' else pd.DataFrame(a, idx)
+    if case['form'] == 'S':
+        return pd.Series(a[:, 0], idx, name=_nm(case.get('name')))
+    return pd.DataFrame(a, idx, columns=None if case.get('cols') is None else [_nm(c) for c in case['cols']])
 
 def canon_cell(v):
     v = float(v)
@@ -118,6 +145,8 @@ def observe(x):
         return ['S', [H(i) for i in x.index], [[canon_cell(v)] for v in x.values]]
     if isinstance(x, pd.DataFrame):
         return ['D', [H(i) for i in x.index], [[canon_cell(v) for v in r] for r in x.values]]
+    if isinstance(x, pd.DatetimeIndex):
+        return ['I', [H(i) for i in x], [[] for _ in x]]
     return ['?' + type(x).__name__, [], []]
 
 # ---- property text as plain loops
@@ -176,16 +205,19 @@ def stitch_bounds(case):
 
 def call_stitch(case, ss_objs, lbs, ubs):
     kw = {}
-    if lbs is not None: kw['lb'] = [T(x) for x in lbs]
-    if ubs is not None: kw['ub'] = [T(x) for x in ubs]
+    if lbs is not None: kw['lb'] = py_bound_list(lbs, (lbs or []) + (ubs or []))
+    if ubs is not None: kw['ub'] = py_bound_list(ubs, (lbs or []) + (ubs or []))
     if case.get('oc') is not None: kw['openclose'] = case['oc']
     return df_slice(ss_objs, n=case['n'], **kw)
 
 def impl(case):
-    global UNIT
+    global UNIT, E0
     UNIT = case.get('unit', 'h')
+    E0 = EPOCHS[case.get('epoch', '2020')]       # far past / far future series use the same relative timestamps
     k = case['kind']
     viol = None
+    global BFORM
+    BFORM = case.get('bform', 'datetime')
     if k == 'slice':
         x = build_slice_arg(case)
         before = observe(x)
@@ -195,7 +227,11 @@ def impl(case):
         valid = len(oc_eff) == 2 and all(c in '()[]oOcC' for c in oc_eff)
         parsed = bool(case['ts']) and not (case['lb'] is None and case['ub'] is None)   # brackets only matter then
         try:
-            if case.get('tuple'):
+            if case.get('kw'):
+                kw = {key: val for key, val in (('lb', lb), ('ub', ub), ('openclose', oc)) if val is not None or key == 'openclose' and oc is not None}
+                if oc is None: kw.pop('openclose', None)
+                r = df_slice(x, **kw)
+            elif case.get('tuple'):
                 r = df_slice(x, (lb, ub)) if oc is None else df_slice(x, (lb, ub), None, oc)
             elif oc is None:
                 r = df_slice(x, lb, ub)
@@ -210,6 +246,12 @@ def impl(case):
             viol = 'df_slice modified its argument'
         elif o[0] != case['form']:
             viol = 'df_slice(%s) returned %s' % (case['form'], o[0])
+        elif case['form'] == 'S' and r.name != x.name:
+            viol = 'df_slice(Series named %r) returned a Series named %r' % (x.name, r.name)
+        elif case['form'] == 'D' and list(r.columns) != list(x.columns):
+            viol = 'df_slice(DataFrame with columns %r) returned columns %r' % (list(x.columns), list(r.columns))
+        elif (r.name if case['form'] == 'I' else r.index.name) != (x.name if case['form'] == 'I' else x.index.name):
+            viol = 'df_slice changed the index name %r' % (case.get('iname'),)
         elif parsed and not valid:
             viol = 'malformed bracket string %r accepted' % (oc,)
         else:
@@ -223,7 +265,10 @@ def impl(case):
         ss_objs = [mk_series(s) for s in case['ss']]
         before = [observe(s) for s in ss_objs]
         try:
-            r = call_stitch(case, ss_objs, case.get('lbs') if case['mode'] != 'ub' else None, case.get('ubs') if case['mode'] != 'lb' else None)
+            if case.get('single'):      # one series, several windows: df_slice(ts, [lb...], [ub...])
+                r = call_stitch(case, ss_objs[0], case['lbs'], case['ubs'])
+            else:
+                r = call_stitch(case, ss_objs, case.get('lbs') if case['mode'] != 'ub' else None, case.get('ubs') if case['mode'] != 'lb' else None)
         except Exception as e:
             name = type(e).__name__
             expected_err = case['mode'] == 'both' and _dir(case['lbs']) != _dir(case['ubs'])
@@ -247,7 +292,7 @@ def impl(case):
     ss_objs = [mk_series(s) for s in case['ss']]
     ubs = [T(u) for u in case['ubs']]
     try:
-        f = df_slice(ss_objs, ub=ubs, n=case['n'])
+        f = df_slice(ss_objs, ub=py_bound_list(case['ubs'], case['ubs']), n=case['n'])
         r = df_unslice(f, ubs)
         keys = list(r.keys())
         f2 = df_slice(list(r.values()), ub=keys, n=case['n'])
@@ -302,10 +347,10 @@ def shape(case):
         oc = case.get('oc')
         ocs = 'default' if oc is None else (oc if oc in BRACKETS else ('alias' if len(oc) == 2 and all(c in 'oOcC()[]' for c in oc) else 'malformed'))
         wrap = ':wrap' if (case['lb'] and case['ub'] and case['lb'][0] == 'tod' and case['ub'][0] == 'tod' and case['lb'][1] > case['ub'][1]) else ''
-        return 'slice:%s:%s:%s%s%s' % (f(case['lb']), f(case['ub']), ocs, wrap, ':us' if case.get('unit') == 'us' else '')
+        return 'slice:%s:%s:%s%s%s%s%s' % (f(case['lb']), f(case['ub']), ocs, wrap, ':us' if case.get('unit') == 'us' else '', ':long' if case.get('long') else '', ':index' if case['form'] == 'I' else '')
     if case['kind'] == 'stitch':
         l = case['lbs'] if case['mode'] == 'lb' else case['ubs']
-        return 'stitch:%s:%s:n%d' % (case['mode'], 'inc' if _dir(l) else 'dec', min(case['n'], 3))
+        return 'stitch:%s:%s:n%d%s' % (case['mode'], 'inc' if _dir(l) else 'dec', min(case['n'], 3), ':single' if case.get('single') else '')
     return 'unslice:n%d' % min(case['n'], 3)
 
 # ------------------------------------------------------------------ generation
@@ -326,8 +371,22 @@ def rand_bound(rng, ts):
         return ['at', rng.choice([lo - 9, lo - 3, lo, hi, hi + 3, hi + 12] + ([rng.choice(ts)] * 4) + [rng.choice(ts) + rng.choice([-3, 3, 9])] * 3)]
     return ['tod', rng.choice([0, 3, 6, 9, 12, 15, 18, 21, 6, 18])]
 
+BFORMS = ['datetime', 'datetime', 'Timestamp', 'np', 'date', 'str', 'int']
+def decorate(rng, c):
+    """names, spellings, call forms and eras that must not matter"""
+    r = rng.random
+    if c['kind'] == 'slice':
+        if r() < 0.4: c['name'] = rng.choice(['px', 'a b', 0, ('t', 1)])
+        if r() < 0.5: c['cols'] = rng.choice([['a', 'b'], ['z', 'y'], [10, 5], ['a', 'a'], [('p', 1), ('p', 2)]])[:c['k']]
+        if r() < 0.3: c['iname'] = rng.choice(['date', 't'])
+        if r() < 0.25 and not c.get('tuple'): c['kw'] = True
+    if r() < 0.5: c['bform'] = rng.choice(BFORMS)
+    if r() < 0.3 and c.get('unit') != 'us': c['epoch'] = rng.choice(['1700', '1970', '2250'])
+    return c
+
 def slice_case(ts, k, form, lb, ub, oc, vals=None, **kw):
     if form == 'S': k = 1
+    if form == 'I': k = 0
     rows = [[100 * (j + 1) + i for j in range(k)] for i in range(len(ts))] if vals is None else vals
     return dict(kw, kind='slice', ts=list(ts), k=k, form=form, rows=rows, lb=lb, ub=ub, oc=oc)
 
@@ -358,13 +417,29 @@ def gen_cases(rng, tier):
     # B. random single slices incl. default / alias / malformed bracket strings, empty series, NaN values
     for _ in range(2500 if quick else 40000):
         n = rng.choice([0, 1, 2, 3, 5, 8]); ts = rand_index(rng, n)
-        form = rng.choice(['S', 'D']); k = 1 if form == 'S' else rng.choice([1, 2])
+        form = rng.choice(['S', 'S', 'S', 'D', 'D', 'D', 'I']); k = 1 if form == 'S' else rng.choice([1, 2])
         r = rng.random()
         oc = rng.choice(BRACKETS) if r < 0.6 else None if r < 0.7 else rng.choice(['oc', 'co', 'cc', 'oo', 'OC', 'c)', '[o', '']) if r < 0.9 else rng.choice(['x]', '[', '[]]', '<>', '[ '])
         vals = [[None if rng.random() < 0.15 else rng.choice([PINF, NINF]) if rng.random() < 0.1 else 100 * (j + 1) + i for j in range(k)] for i in range(n)]
         lb, ub = rand_bound(rng, ts), rand_bound(rng, ts)
         tup = rng.random() < 0.05 and ub is not None
-        cases.append(slice_case(ts, k, form, lb, ub, oc, vals, tuple=tup))
+        if form == 'I' and lb and ub and lb[0] == 'tod' and ub[0] == 'tod' and lb[1] > ub[1]:
+            form = 'S'; k = 1; vals = [r[:1] for r in vals]      # pd.concat in the wrap-around arm does not take an Index (left open)
+        c = decorate(rng, slice_case(ts, k, form, lb, ub, oc, vals if form != 'I' else [[] for _ in ts], tuple=tup))
+        if form == 'I' and c.get('bform') in ('date', 'str', 'int'): c['bform'] = 'Timestamp'   # bounds are not passed through dt() for an Index
+        cases.append(c)
+    # B2. long series (150-400 points, hourly grid with gaps), bounds inside / on points / outside, dates and times of day
+    for _ in range(40 if quick else 600):
+        n = rng.choice([150, 257, 400]); ts = []; t0 = rng.choice([0, -240])
+        for _ in range(n):
+            ts.append(t0); t0 += rng.choice([1, 1, 2, 5, 24, 49])
+        form = rng.choice(['S', 'D']); k = 1 if form == 'S' else 2
+        def bnd():
+            q = rng.random()
+            if q < 0.15: return None
+            if q < 0.7: return ['at', rng.choice(ts) + rng.choice([0, 0, 1, -1, 12])]
+            return ['tod', rng.randrange(0, 24)]
+        cases.append(decorate(rng, slice_case(ts, k, form, bnd(), bnd(), rng.choice(BRACKETS + [None]), long=True)))
     # E. sub-second times of day (unit = microseconds): rows 300 ms / 1 us before, at, and 1 us / 250 ms / just under 1 s after
     #    each bound's time of day, bounds with and without microseconds, single and wrap-around windows, all four brackets
     S = 10 ** 6
@@ -393,13 +468,17 @@ def gen_cases(rng, tier):
         cases.append(slice_case(ts, k, form, lb, ub, rng.choice(BRACKETS + [None]), unit='us'))
     # C. stitching
     for _ in range(1500 if quick else 25000):
-        m = rng.choice([1, 2, 2, 3, 3, 4])
+        m = rng.choice([1, 2, 2, 3, 3, 4, 4, 6, 8])
         ss = [rand_series(rng, 1000 * (i + 1)) for i in range(m)]
         n = rng.randrange(1, m + 1)
         mode = rng.choice(['ub', 'ub', 'ub', 'lb', 'both'])
         ubs = rand_ubs(rng, m)
-        c = dict(kind='stitch', ss=ss, n=n, mode=mode, oc=rng.choice([None, None, None, '(]', '[)', '[]', '()']))
+        c = decorate(rng, dict(kind='stitch', ss=ss, n=n, mode=mode, oc=rng.choice([None, None, None, '(]', '[)', '[]', '()'])))
         dec = rng.random() < 0.3
+        if rng.random() < 0.1:               # one series, several windows: df_slice(ts, [lb...], [ub...])
+            delta = rng.choice([6, 12, 3])
+            c.update(mode='both', single=True, n=1, ss=[ss[0]] * m, lbs=[x - delta for x in ubs], ubs=ubs)
+            cases.append(c); continue
         if mode == 'ub': c['ubs'] = ubs[::-1] if dec else ubs
         elif mode == 'lb': c['lbs'] = ubs[::-1] if dec else ubs
         else:
@@ -413,12 +492,12 @@ def gen_cases(rng, tier):
     cases.append(dict(kind='stitch', ss=[], n=1, mode='ub', ubs=[], oc=None))
     # D. df_unslice round trip
     for _ in range(800 if quick else 12000):
-        m = rng.choice([1, 2, 3, 3, 4])
+        m = rng.choice([1, 2, 3, 3, 4, 6])
         ss = []
         for i in range(m):
             ts = rand_index(rng, rng.choice([0, 2, 3, 4, 6]))
             ss.append([[t, rng.choice([PINF, NINF]) if rng.random() < 0.1 else 1000 * (i + 1) + q] for q, t in enumerate(ts)])
-        cases.append(dict(kind='unslice', ss=ss, n=rng.randrange(1, m + 1), ubs=rand_ubs(rng, m, strict=True)))
+        cases.append(decorate(rng, dict(kind='unslice', ss=ss, n=rng.randrange(1, m + 1), ubs=rand_ubs(rng, m, strict=True))))
     return cases
 
 def shrink(case):
